@@ -281,5 +281,33 @@ func (m *Map) CompareAndSwap(key, old, new any) bool {
 	return m.m.CompareAndSwap(key, old, new)
 }
 func (m *Map) CompareAndDelete(key, old any) bool { m.pt(); return m.m.CompareAndDelete(key, old) }
-func (m *Map) Range(f func(key, value any) bool)  { m.pt(); m.m.Range(f) }
-func (m *Map) Clear()                             { m.pt(); m.m.Clear() }
+
+// Range iterates in a deterministic key order under the scheduler (sync.Map's
+// own order depends on per-instance hash seeds, and a live iteration may or
+// may not see concurrent stores): keys are snapshotted, sorted by vsched's
+// comparator and re-loaded one by one (entries deleted meanwhile are skipped,
+// entries stored meanwhile are missed — both allowed by sync.Map's contract).
+func (m *Map) Range(f func(key, value any) bool) {
+	m.pt()
+	if !vsched.Active() {
+		m.m.Range(f)
+		return
+	}
+	var keys []any
+	m.m.Range(func(k, _ any) bool { keys = append(keys, k); return true })
+	if len(keys) > 1 && vsched.SortAny(keys) && vsched.Choose(2) == 1 {
+		for i, j := 0, len(keys)-1; i < j; i, j = i+1, j-1 {
+			keys[i], keys[j] = keys[j], keys[i]
+		}
+	}
+	for _, k := range keys {
+		v, ok := m.m.Load(k)
+		if !ok {
+			continue
+		}
+		if !f(k, v) {
+			return
+		}
+	}
+}
+func (m *Map) Clear() { m.pt(); m.m.Clear() }
